@@ -6,3 +6,4 @@ pub mod vraw;
 pub fn silence_panics() {
 	std::panic::set_hook(Box::new(|_| {}));
 }
+pub mod gen;
